@@ -29,9 +29,12 @@ type c10State struct {
 	objs  map[scte35.SegmentationDescriptor]*c10Obj
 	nobj  int
 	// monitor memory
-	gone     map[*c10Obj]bool // reported closed or discarded at some point
-	last     *c10Obj          // object of the previous call if it was a Process call
-	first    *c10Obj          // the first object ever processed (re-submitted by the ProcessFirstAgain operation)
+	gone  map[*c10Obj]bool // reported closed or discarded at some point
+	last  *c10Obj          // object of the previous call if it was a Process call
+	first *c10Obj          // the first object ever processed (re-submitted by the ProcessFirstAgain operation)
+	// ptsOrder: how positional signal times run in autoPTS alphabets: 0 ascending, 1 descending, 2 zig-zag
+	// (the tracker may not assume that signals arrive, or that descriptors are opened, in signal-time order)
+	ptsOrder int
 	lastErr  error
 	lastNote string
 	// witness: an independent tracker with two open descriptors that this history never touches
@@ -301,7 +304,14 @@ func c10Apply(s *c10State, op int, res *engine.Result, depth int) bool {
 		kind = "Process"
 		v := a.process[op]
 		if a.autoPTS {
-			v.PTS = uint64(100 + depth)
+			switch s.ptsOrder {
+			case 1:
+				v.PTS = uint64(1000000 - depth)
+			case 2:
+				v.PTS = uint64(1000000 + (1-2*(depth%2))*(depth+1))
+			default:
+				v.PTS = uint64(100 + depth)
+			}
 		}
 		incoming = s.mk(v)
 		if s.first == nil {
@@ -682,6 +692,8 @@ type c10Long struct {
 	Again   int    `json:"again_at"` // position after which the same object is processed again (-1: never)
 	Alpha   string `json:"alphabet,omitempty"`
 	X       int    `json:"resubmitted_type_index,omitempty"`
+	// PTSOrder: 0 = signal times ascending with the position, 1 = descending, 2 = zig-zag around the first one
+	PTSOrder int `json:"signal_time_order,omitempty"`
 }
 
 // resubmit: the re-submitted type (X-th entry of c10ResubmitXs that has a filler) and its filler type.
@@ -841,6 +853,7 @@ func c10LongHistory(c c10Long) []int {
 func c10CheckLong(c c10Long) engine.Result {
 	var res engine.Result
 	s := c10New(c.alphabet())
+	s.ptsOrder = c.PTSOrder
 	for i, op := range c10LongHistory(c) {
 		if !c10Apply(s, op, &res, i) {
 			continue
@@ -868,7 +881,7 @@ func init() {
 				"distinct-pts", "distinct-pts", 4, 5),
 			&engine.Enum[c10Long]{
 				Name: "long-histories",
-				Rule: "one tracker fed 65560 end descriptors with always-new signal times and the same object again at each position 65528..65548 (counters of a long-lived tracker pass 2^16); six re-submission patterns (a descriptor of each of the 13 types that are kept open - 12 out types and the program breakaway -, N = 0..15 other signals with other signal times that leave it open [the others of another type, or of its OWN type where a start does not close an earlier start of the same type; or after it was closed explicitly or by its own end descriptor; or followed by a different descriptor that carries the FIRST one's signal time, and one more filler, so that a record for that time exists which lacks the first object], then the same object again: while its signal time is still on record it must be rejected as a duplicate with the list unchanged; it may never sit in the open list twice; re-opening a descriptor that had been reported closed once its signal time is forgotten is the recorded known finding) and five history patterns (start/end pairs; many chapters closed by one program end; breakaway/resumption cycles with content opened in the blackout; placement opportunities with explicit closes; nested breakaways closed by unscheduled-event and network signals) repeated N = 1..12 (thorough 1..40) times with always-distinct PTS (histories of up to ~360 calls, beyond the 10-slot duplicate ring), each also with the same object processed again after every position; the identity monitor runs after every call." + common,
+				Rule: "one tracker fed 65560 end descriptors with always-new signal times and the same object again at each position 65528..65548 (counters of a long-lived tracker pass 2^16); six re-submission patterns, each with signal times ascending, DESCENDING and zig-zag in arrival order (a descriptor of each of the 13 types that are kept open - 12 out types and the program breakaway -, N = 0..15 other signals with other signal times that leave it open [the others of another type, or of its OWN type where a start does not close an earlier start of the same type; or after it was closed explicitly or by its own end descriptor; or followed by a different descriptor that carries the FIRST one's signal time, and one more filler, so that a record for that time exists which lacks the first object], then the same object again: while its signal time is still on record it must be rejected as a duplicate with the list unchanged; it may never sit in the open list twice; re-opening a descriptor that had been reported closed once its signal time is forgotten is the recorded known finding) and five history patterns (start/end pairs; many chapters closed by one program end; breakaway/resumption cycles with content opened in the blackout; placement opportunities with explicit closes; nested breakaways closed by unscheduled-event and network signals) repeated N = 1..12 (thorough 1..40) times with always-distinct PTS (histories of up to ~360 calls, beyond the 10-slot duplicate ring), each also with the same object processed again after every position; the identity monitor runs after every call." + common,
 				Gen: func(r *engine.Run, emit func(c10Long)) {
 					maxN := 12
 					if r.Thorough() {
@@ -884,6 +897,10 @@ func init() {
 						for x := range c10ResubmitXs {
 							for n := 0; n <= 15; n++ {
 								emit(c10Long{Pattern: p, N: n, Again: -1, X: x})
+								if n >= 2 {
+									emit(c10Long{Pattern: p, N: n, Again: -1, X: x, PTSOrder: 1})
+									emit(c10Long{Pattern: p, N: n, Again: -1, X: x, PTSOrder: 2})
+								}
 							}
 						}
 					}
